@@ -177,6 +177,13 @@ func opMerge(a, b int) storeOp {
 		real: func(st []store.Store, _ []Kind, _ bool) { st[a].MergeWith(st[b]) },
 		mod:  func(w *StoreWorld) { w.M[a].MergeFrom(w.M[b]) }}
 }
+
+// opMergeSelf: a.MergeWith(a) doubles every weight.
+func opMergeSelf(a int) storeOp {
+	return storeOp{name: fmt.Sprintf("%s.MergeWith(%s)", slotName(a), slotName(a)), tag: "merge", writes: 1 << uint(a),
+		real: func(st []store.Store, _ []Kind, _ bool) { st[a].MergeWith(st[a]) },
+		mod:  func(w *StoreWorld) { w.M[a].Scale(2) }}
+}
 func opCopy(a, b int) storeOp {
 	return storeOp{name: fmt.Sprintf("%s = %s.Copy()", slotName(a), slotName(b)), tag: "copy", writes: 1 << uint(a), slot: a, src: b,
 		real: func(st []store.Store, _ []Kind, _ bool) { st[a] = st[b].Copy() },
